@@ -74,25 +74,25 @@ PROPS = {
                         "a registered consumer URL contains no '#' (a fragment would swallow the query); URLs with an own query are covered by C04_redirect_url_with_query under the stated hypothesis that they do not themselves carry a SAMLResponse / RelayState / SigAlg / Signature parameter"],
     },
     "C05": {
-        "modules": ["SamlModel.Props.C05", "SamlModel.Props.SendBack", "SamlModel.Props.SsoGen", "SamlModel.Props.RedirectSigGen", "SamlModel.Props.SsoProps", "SamlModel.Props.Stateless", "SamlModel.Props.DecodeGen", "SamlModel.Props.MetadataGen"],
+        "modules": ["SamlModel.Props.C05", "SamlModel.Props.SendBack", "SamlModel.Props.SsoGen", "SamlModel.Props.RedirectSigGen", "SamlModel.Props.SsoProps", "SamlModel.Props.Stateless", "SamlModel.Props.DecodeGen", "SamlModel.Props.MetadataGen", "SamlModel.Props.LookupGen"],
         "translated": ["ServiceProvider_ValidateRedirectSignature", "IdentityProvider_ssoHandleFunc", "getAuthRequestFromRequest", "signaturePostProvided", "signaturePostVerificationNecessary", "signatureRedirectVerificationNecessary",
-                       "verifyRedirectSignature", "verifyPostSignature", "certificateCheckNecessary", "checkCertificate", "isXSBooleanTrue", "DecodeAuthNRequest"],
+                       "verifyRedirectSignature", "verifyPostSignature", "certificateCheckNecessary", "checkCertificate", "isXSBooleanTrue", "DecodeAuthNRequest", "IdentityProvider_GetServiceProvider"],
         "trusted_base": COMMON_TRUST + SSO_TRUST + [
             "ServiceProvider.ValidateRedirectSignature is translated (RedirectSigGen.validateRedirect_spec: it hands exactly `octets request relayState sigAlg`, the base64-decoded Signature and the registered key to signature.ValidateRedirect; octets_injective: the octets determine the three values; C05_redirect_signature_covers_what_is_acted_on combines it with the handler theorems under the stated link hypothesis that the storage's service providers use the library's method). RSA / DSA verification (signature.ValidateRedirect) and XML-DSig validation (ValidatePostSignature: goxmldsig, etree) are oracles, sampled by the harness with real keys, not proved; signature-wrapping inside goxmldsig/etree vs encoding/xml is outside the theorem",
         ],
         "assumptions": ["Form.WF: the binding decision of getAuthRequestFromRequest is POST or Redirect (fingerprinted function; checked on every case by the sso correspondence)"],
     },
     "C06": {
-        "modules": ["SamlModel.Props.C06", "SamlModel.Props.SendBack", "SamlModel.Props.SsoGen", "SamlModel.Props.SsoProps", "SamlModel.Props.DecodeGen", "SamlModel.Props.Stateless", "SamlModel.Props.MetadataGen"],
-        "translated": ["DecodeAuthNRequest", "DecodeLogoutRequest", "IdentityProvider_ssoHandleFunc", "getAuthRequestFromRequest", "checkRequestRequiredContent", "checkIfRequestTimeIsStillValid", "verifyRequestDestinationOfAuthRequest", "ServiceProvider_GetEntityID"],
+        "modules": ["SamlModel.Props.C06", "SamlModel.Props.SendBack", "SamlModel.Props.SsoGen", "SamlModel.Props.SsoProps", "SamlModel.Props.DecodeGen", "SamlModel.Props.Stateless", "SamlModel.Props.MetadataGen", "SamlModel.Props.LookupGen"],
+        "translated": ["DecodeAuthNRequest", "DecodeLogoutRequest", "IdentityProvider_ssoHandleFunc", "getAuthRequestFromRequest", "checkRequestRequiredContent", "checkIfRequestTimeIsStillValid", "verifyRequestDestinationOfAuthRequest", "ServiceProvider_GetEntityID", "IdentityProvider_GetServiceProvider"],
         "trusted_base": COMMON_TRUST + SSO_TRUST + [
             "time.Parse / time.Now are oracles (Ora.timeParse, Ora.now) in C06_accept_implies_valid and its corollaries; for the library's DefaultTimeFormat time.Parse is additionally modelled (Lib.Time.parseDefault, written from Go 1.23's time/format.go; compared with time.Parse on a boundary corpus and 2*10^4 (thorough 3*10^5) mutated strings on every run: `lib timeparse`) and C06_window_concrete / C06_zero_time_is_expired are stated over that model under the hypothesis ParsesAsGo; XML decoding (DecodeAuthNRequest incl. base64/DEFLATE) is an oracle whose failure is `decoded = none`",
         ],
         "assumptions": ["wall-clock cases keep a 10-minute guard band; the exact boundary NotBefore <= now < NotOnOrAfter is covered by the theorem on the translated time.go"],
     },
     "C08": {
-        "modules": ["SamlModel.Props.C08", "SamlModel.Props.SendBack", "SamlModel.Props.SsoGen", "SamlModel.Props.SsoProps", "SamlModel.Props.Stateless", "SamlModel.Props.DecodeGen", "SamlModel.Props.MetadataGen"],
-        "translated": ["IdentityProvider_ssoHandleFunc", "getAuthRequestFromRequest", "GetAcsUrlAndBindingForResponse", "checkRequestRequiredContent"],
+        "modules": ["SamlModel.Props.C08", "SamlModel.Props.SendBack", "SamlModel.Props.SsoGen", "SamlModel.Props.SsoProps", "SamlModel.Props.Stateless", "SamlModel.Props.DecodeGen", "SamlModel.Props.MetadataGen", "SamlModel.Props.LookupGen"],
+        "translated": ["IdentityProvider_ssoHandleFunc", "getAuthRequestFromRequest", "GetAcsUrlAndBindingForResponse", "checkRequestRequiredContent", "IdentityProvider_GetServiceProvider"],
         "trusted_base": COMMON_TRUST + SSO_TRUST + [
             "that the implementation writes exactly one reply and calls CreateAuthRequest at most once is observed by the harness (reply parser counts documents/forms; storage call log), the model's Result holds one of each by construction",
         ],
@@ -119,9 +119,9 @@ PROPS = {
         "assumptions": [],
     },
     "C13": {
-        "modules": ["SamlModel.Props.C13", "SamlModel.Props.LogoutGen", "SamlModel.Props.LogoutProps", "SamlModel.Props.DecodeGen", "SamlModel.Props.Stateless"],
+        "modules": ["SamlModel.Props.C13", "SamlModel.Props.LogoutGen", "SamlModel.Props.LogoutProps", "SamlModel.Props.DecodeGen", "SamlModel.Props.Stateless", "SamlModel.Props.LookupGen"],
         "translated": ["DecodeAuthNRequest", "DecodeLogoutRequest", "checkIfRequestTimeIsStillValid", "makeLogoutResponse", "getIssuer", "IdentityProvider_logoutHandleFunc", "getLogoutRequestFromRequest",
-                       "LogoutResponse_makeFailedLogoutResponse", "LogoutResponse_makeSuccessfulLogoutResponse", "LogoutResponse_sendBackLogoutResponse"],
+                       "LogoutResponse_makeFailedLogoutResponse", "LogoutResponse_makeSuccessfulLogoutResponse", "LogoutResponse_sendBackLogoutResponse", "IdentityProvider_GetServiceProvider"],
         "trusted_base": COMMON_TRUST + SLO_TRUST + [
             "makeLogoutResponse / getIssuer are translated and proved to refine Logout.mkMsg (C13_builder_refines); C13_generated_one_response / _success_iff / _delivery state the property on the regenerated handler",
             "XML decoding (DecodeLogoutRequest incl. base64/DEFLATE) and html/template rendering are oracles / covered by C17, C18",
@@ -129,10 +129,10 @@ PROPS = {
         "assumptions": ["SpWF: registered metadata has an SPSSODescriptor (NewServiceProvider refuses metadata without one)"],
     },
     "C12": {
-        "modules": ["SamlModel.Props.C12", "SamlModel.Props.AttrQueryGen", "SamlModel.Props.AttrQueryProps", "SamlModel.Props.Stateless"],
+        "modules": ["SamlModel.Props.C12", "SamlModel.Props.AttrQueryGen", "SamlModel.Props.AttrQueryProps", "SamlModel.Props.Stateless", "SamlModel.Props.LookupGen"],
         "translated": ["verifyRequestDestinationOfAttrQuery", "certificateCheckNecessary", "checkCertificate", "signaturePostProvided",
                        "ServiceProvider_GetEntityID", "Attributes_GetSAML", "Attributes_GetNameID", "getResponseCert",
-                       "makeAttributeQueryResponse", "IdentityProvider_attributeQueryHandleFunc"],
+                       "makeAttributeQueryResponse", "IdentityProvider_attributeQueryHandleFunc", "IdentityProvider_GetServiceProvider"],
         "trusted_base": COMMON_TRUST + AQ_TRUST + [
             "SOAP/XML decoding and XML-DSig validation of the query (ValidateAttributeQuerySignature: etree + goxmldsig) are oracles sampled with real keys",
         ],
@@ -183,16 +183,16 @@ PROPS = {
         "assumptions": ["scheme comparison follows net/url (scheme is lower-cased by the parser; schemes are case-insensitive per RFC 3986)"],
     },
     "C02": {
-        "modules": ["SamlModel.Props.C02", "SamlModel.Props.HandlerGen", "SamlModel.Props.HandlerProps", "SamlModel.Props.SendBack", "SamlModel.Props.LogoutProps", "SamlModel.Props.SsoProps", "SamlModel.Props.Stateless", "SamlModel.Props.DecodeGen", "SamlModel.Props.MetadataGen"],
-        "translated": ["GetAcsUrlAndBindingForResponse", "IdentityProvider_logoutHandleFunc", "LogoutResponse_sendBackLogoutResponse"],
+        "modules": ["SamlModel.Props.C02", "SamlModel.Props.HandlerGen", "SamlModel.Props.HandlerProps", "SamlModel.Props.SendBack", "SamlModel.Props.LogoutProps", "SamlModel.Props.SsoProps", "SamlModel.Props.Stateless", "SamlModel.Props.DecodeGen", "SamlModel.Props.MetadataGen", "SamlModel.Props.LookupGen"],
+        "translated": ["GetAcsUrlAndBindingForResponse", "IdentityProvider_logoutHandleFunc", "LogoutResponse_sendBackLogoutResponse", "IdentityProvider_GetServiceProvider"],
         "trusted_base": COMMON_TRUST + SSO_TRUST + CB_TRUST + SLO_TRUST + [
             "the auto-submit form (action attribute) is covered byte-exactly by C17; the redirect URL assembly (two fingerprinted lines of sendBackResponse) is hand-modelled as redirectURL",
         ],
         "assumptions": ["callback: 'registered' is by composition with the SSO theorem - the stored pair is the pair the SSO endpoint persisted (C02_sso_persists_registered_pair); storage is trusted to return what was stored"],
     },
     "C10": {
-        "modules": ["SamlModel.Props.C10", "SamlModel.Props.HandlerGen", "SamlModel.Props.SendBack", "SamlModel.Props.LogoutProps", "SamlModel.Props.AttrQueryProps", "SamlModel.Props.SsoProps", "SamlModel.Props.MetadataGen", "SamlModel.Props.Stateless", "SamlModel.Props.DecodeGen", "SamlModel.Props.MetadataProps", "SamlModel.Props.CertGen"],
-        "translated": ["getResponseCert", "getMetadataCert", "Config_getMetadata", "Provider_GetMetadata", "Provider_metadataHandle", "IdentityProvider_GetMetadata", "IdentityProvider_certificateHandleFunc"],
+        "modules": ["SamlModel.Props.C10", "SamlModel.Props.HandlerGen", "SamlModel.Props.SendBack", "SamlModel.Props.LogoutProps", "SamlModel.Props.AttrQueryProps", "SamlModel.Props.SsoProps", "SamlModel.Props.MetadataGen", "SamlModel.Props.Stateless", "SamlModel.Props.DecodeGen", "SamlModel.Props.MetadataProps", "SamlModel.Props.CertGen", "SamlModel.Props.LookupGen"],
+        "translated": ["getResponseCert", "getMetadataCert", "Config_getMetadata", "Provider_GetMetadata", "Provider_metadataHandle", "IdentityProvider_GetMetadata", "IdentityProvider_certificateHandleFunc", "IdentityProvider_GetServiceProvider"],
         "trusted_base": COMMON_TRUST + SSO_TRUST + CB_TRUST + [
             "Model.Metadata (metadata / certificate / readiness handlers): hand model tied by its correspondence, by fingerprints (readiness) and by proof (IdentityProvider.certificateHandleFunc is translated on every run - the local bytes.Buffer is the bytes written to it, pem.Encode a library oracle, w.Header().Set and io.Copy effects - and CertGen.certificateHandle_spec / certificate_refines / C10_generated_certificate_key_failure / C11_generated_certificate_body / C09_generated_certificate_handler are about the regenerated handler); in addition Provider.metadataHandle, Provider.GetMetadata, Config.getMetadata and getMetadataCert are translated on every run and MetadataGen.metadataHandle_spec characterises the regenerated handler for every environment (IdentityProvider.GetMetadata, GetMetadataSigningKey, signature.GetSigner / Create, the write error as typed oracles): C10_generated_metadata_key_failure / _signer_failure (no document when the key or the signer fails), C11_generated_signed_iff_configured; IdentityProviderConfig.getMetadata / IdentityProvider.GetMetadata / GetEntityID are translated standalone (the loop that blanks attribute values through the pointers of a fresh slice is a map in the value model) and C11_generated_metadata states what the regenerated descriptors advertise: SSO / SLO / attribute locations = the endpoints' absolute URLs for the issuer in effect, WantAuthnRequestsSigned verbatim, every key descriptor = the response signing certificate; Model.Logout, Model.AttrQuery, Model.Sso: tied by the refinement proofs over the regenerated handlers",
             "the fault enumeration on the implementation is exhaustive over (endpoint x storage call occurrence of the fault-free run x fault kind), singly and in pairs, for one valid request shape per endpoint",
@@ -212,10 +212,10 @@ PROPS = {
                         "hunsigned (C11_want_signed_means_refused): the XML-DSig validator rejects a document without signature (goxmldsig; sampled)"],
     },
     "C09": {
-        "modules": ["SamlModel.Props.C09", "SamlModel.Props.HandlerGen", "SamlModel.Props.SendBack", "SamlModel.Props.LogoutProps", "SamlModel.Props.AttrQueryProps", "SamlModel.Props.SsoProps", "SamlModel.Props.NewSpGen", "SamlModel.Props.Stateless", "SamlModel.Props.DecodeGen", "SamlModel.Props.MetadataGen", "SamlModel.Props.MetadataProps", "SamlModel.Props.CertGen"],
+        "modules": ["SamlModel.Props.C09", "SamlModel.Props.HandlerGen", "SamlModel.Props.SendBack", "SamlModel.Props.LogoutProps", "SamlModel.Props.AttrQueryProps", "SamlModel.Props.SsoProps", "SamlModel.Props.NewSpGen", "SamlModel.Props.Stateless", "SamlModel.Props.DecodeGen", "SamlModel.Props.MetadataGen", "SamlModel.Props.MetadataProps", "SamlModel.Props.CertGen", "SamlModel.Props.LookupGen"],
         "translated": ["NewServiceProvider", "getSigningCertsFromMetadata", "certificateCheckNecessary", "checkCertificate", "equalCertificateText", "checkRequestRequiredContent", "verifyRequestDestinationOfAuthRequest",
                        "verifyRequestDestinationOfAttrQuery", "GetCertsFromKeyDescriptors", "getResponseCert", "GetAcsUrlAndBindingForResponse",
-                       "signaturePostProvided", "signatureRedirectVerificationNecessary", "signaturePostVerificationNecessary", "verifyRedirectSignature", "verifyPostSignature", "Provider_metadataHandle", "Provider_GetMetadata", "Config_getMetadata", "getMetadataCert", "IdentityProvider_GetMetadata", "DecodeAuthNRequest", "DecodeLogoutRequest", "IdentityProvider_certificateHandleFunc"],
+                       "signaturePostProvided", "signatureRedirectVerificationNecessary", "signaturePostVerificationNecessary", "verifyRedirectSignature", "verifyPostSignature", "Provider_metadataHandle", "Provider_GetMetadata", "Config_getMetadata", "getMetadataCert", "IdentityProvider_GetMetadata", "DecodeAuthNRequest", "DecodeLogoutRequest", "IdentityProvider_certificateHandleFunc", "IdentityProvider_GetServiceProvider"],
         "trusted_base": COMMON_TRUST + SSO_TRUST + CB_TRUST + SLO_TRUST + AQ_TRUST + [
             "go2lean's panic guards: every pointer dereference / nil-able selector of the translated Go code is emitted as an explicit `if <nil condition> then .panic`; the guard derivation itself is validated by the differential fn/handler ops (model and implementation must agree on panic vs. no panic)",
             "NewServiceProvider / getSigningCertsFromMetadata are translated (standalone): NewSpGen.newServiceProvider_no_panic (for every metadata document and every answer of ParseMetadataXmlIntoStruct / ParseCertificates that honours their contract - no error => a document, no nil certificate - the constructor returns and does not panic) and newServiceProvider_wf (what it hands out carries metadata with an SPSSODescriptor: the SpWF the handler theorems assume)",
@@ -224,10 +224,10 @@ PROPS = {
         "assumptions": ["SpWF: a registered service provider has metadata with an SPSSODescriptor (NewServiceProvider refuses others); storage returns non-nil objects with nil errors"],
     },
     "C07": {
-        "modules": ["SamlModel.Props.C07", "SamlModel.Props.SendBack", "SamlModel.Props.SsoGen", "SamlModel.Props.RedirectSigGen", "SamlModel.Props.SsoProps", "SamlModel.Props.Stateless", "SamlModel.Props.DecodeGen", "SamlModel.Props.MetadataGen"],
+        "modules": ["SamlModel.Props.C07", "SamlModel.Props.SendBack", "SamlModel.Props.SsoGen", "SamlModel.Props.RedirectSigGen", "SamlModel.Props.SsoProps", "SamlModel.Props.Stateless", "SamlModel.Props.DecodeGen", "SamlModel.Props.MetadataGen", "SamlModel.Props.LookupGen"],
         "translated": ["ServiceProvider_ValidateRedirectSignature", "IdentityProvider_ssoHandleFunc", "getAuthRequestFromRequest", "signatureRedirectVerificationNecessary", "signaturePostVerificationNecessary", "verifyRedirectSignature", "verifyPostSignature",
                        "certificateCheckNecessary", "checkCertificate", "checkRequestRequiredContent", "checkIfRequestTimeIsStillValid",
-                       "verifyRequestDestinationOfAuthRequest", "verifyRequestDestinationOfAttrQuery", "GetAcsUrlAndBindingForResponse"],
+                       "verifyRequestDestinationOfAuthRequest", "verifyRequestDestinationOfAttrQuery", "GetAcsUrlAndBindingForResponse", "IdentityProvider_GetServiceProvider"],
         "trusted_base": COMMON_TRUST + SSO_TRUST + [
             "'any legal XML serialisation' is outside the model: encoding/xml's decoder is an oracle; covered by serialising every conformant shape in several styles (prefixes incl. default namespace, XML declaration, indentation, fractional-second digits) and requiring acceptance",
             "signature validation oracles answer as the real library does on what the simulated SP signed",
